@@ -462,6 +462,8 @@ def module_attr(I, st, mv, name):
         if mv.info.name == "armi.runLog" or mv.info.name.endswith(".runLog"):
             I.trust("runLog", "A7: armi.runLog calls are effect-free for the model")
             return bi("runLog." + name, lambda I, st, a, k: iter([(st, None)]))
+        if ("modglobal", mv.info.name, name) in st.ghost:
+            return st.ghost[("modglobal", mv.info.name, name)]  # rebound on this path
         try:
             return I.thaw_global(I.resolve_global(mv.info, name), st)
         except KeyError:
@@ -561,6 +563,11 @@ def setattr(I, st, obj, name, v, raw=False):
     if isinstance(obj, ClassVal):
         # class attribute rebinding (e.g. instance counters): kept per path
         st.ghost[("classattr", id(obj.node), name)] = v
+        yield st, None
+        return
+    if isinstance(obj, ModuleVal) and obj.info is not None and not (obj.info.name == "armi.runLog" or obj.info.name.endswith(".runLog")):
+        # module.NAME = v: the module global is rebound for the rest of this path (seen by lookup / module_attr)
+        st.ghost[("modglobal", obj.info.name, name)] = v
         yield st, None
         return
     raise Unsupported("attribute assignment on %r" % (obj,))
@@ -2502,9 +2509,22 @@ def make_ext_modules(I):
 
     def cp_deepcopy(I, st, a, k):
         I.trust("deepcopy", "A6: copy.deepcopy yields a structurally equal, disjoint copy (containers and plain objects; "
-                            "__getstate__/__setstate__ honoured as by copyreg: new object, state deep-copied, then set)")
-        memo = {}
+                            "__getstate__/__setstate__ honoured as by copyreg: new object, state deep-copied, then set; a class's own "
+                            "__deepcopy__(memo) is executed; the memo maps id(original) -> copy and is shared with nested deepcopy(x, memo) calls)")
         S = [st]
+        if len(a) > 2 or (k and set(k) - {"memo"}):
+            raise Unsupported("copy.deepcopy arguments")
+        mref = a[1] if len(a) > 1 else k.get("memo")
+        if mref is None:
+            mref = S[0].alloc(DictE({}))
+        elif not (isinstance(mref, Ref) and S[0].get(mref).kind == "dict" and S[0].get(mref).owner is None):
+            raise Unsupported("copy.deepcopy with a memo that is not a plain dict")
+
+        def memo():
+            return S[0].get(mref).items  # keyed by id(original) exactly as the builtin id() model numbers store objects
+
+        def ident(v):
+            return 1000000 + v.id
 
         def call1(fn, args):
             outs = list(I.call(fn, args, {}, S[0]))
@@ -2513,19 +2533,41 @@ def make_ext_modules(I):
             S[0] = outs[0][0]
             return outs[0][1]
 
+        def has_ref(x):
+            return isinstance(x, Ref) or (isinstance(x, tuple) and any(has_ref(y) for y in x))
+
         def dc(v):
             if isinstance(v, Ref):
-                if v.id in memo:
-                    return memo[v.id]
+                if ident(v) in memo():
+                    return memo()[ident(v)]
                 e = S[0].get(v)
                 if e.kind == "obj":
-                    for hook in ("__deepcopy__", "__reduce_ex__", "__reduce__"):
+                    dcp, _ = I.class_lookup(e.cls, "__deepcopy__")
+                    if dcp is not None:
+                        # the class's own hook, run as the ordinary method it is; deepcopy() then records the result
+                        y = call1(BoundMethod(dcp, v), [mref])
+                        if not (isinstance(y, Ref) and y == v):
+                            memo()[ident(v)] = y
+                        return y
+                    for hook in ("__reduce_ex__", "__reduce__"):
                         if I.class_lookup(e.cls, hook)[0] is not None:
                             raise Unsupported("deepcopy of object with %s" % hook)
                     gs, _ = I.class_lookup(e.cls, "__getstate__")
                     ss, _ = I.class_lookup(e.cls, "__setstate__")
+                    if "__tuple__" in e.attrs:
+                        # instance of a class deriving from tuple: copyreg rebuilds it as cls.__new__(cls, <deep copy of the
+                        # items>) - the items are copied BEFORE the new object exists and is recorded in the memo
+                        if gs is not None or ss is not None or I.class_lookup(e.cls, "__new__")[0] is not None or I.class_lookup(e.cls, "__getnewargs__")[0] is not None:
+                            raise Unsupported("deepcopy of a tuple subclass with its own copy protocol")
+                        items = tuple(dc(x) for x in e.attrs["__tuple__"])
+                        new = S[0].alloc(ObjE(e.cls, {"__tuple__": items}))
+                        memo()[ident(v)] = new
+                        for kk, x in S[0].get(v).attrs.items():
+                            if kk != "__tuple__":
+                                S[0].get(new).attrs[kk] = dc(x)
+                        return new
                     new = S[0].alloc(ObjE(e.cls, {}))
-                    memo[v.id] = new
+                    memo()[ident(v)] = new
                     if gs is None:
                         attrs = {kk: dc(x) for kk, x in S[0].get(v).attrs.items()}
                         if ss is None:
@@ -2546,8 +2588,16 @@ def make_ext_modules(I):
                 c = e.copy()
                 if e.kind == "dict":
                     c.owner = None  # a copy of obj.__dict__ is a plain dict, not the live view
+                if e.kind == "nd":
+                    # ndarray.__deepcopy__: a new array; entries of an object array are deep-copied with the same memo
+                    c.data = [dc(x) for x in e.data]
+                    new = S[0].alloc(c)
+                    memo()[ident(v)] = new
+                    return new
+                if e.kind in ("dict", "set", "numset") and any(has_ref(kk) for kk in (e.items if e.kind != "dict" else e.items.keys())):
+                    raise Unsupported("deepcopy of a dict / set keyed by objects")
                 new = S[0].alloc(c)
-                memo[v.id] = new
+                memo()[ident(v)] = new
                 if e.kind in ("list", "deque"):
                     items = [dc(x) for x in e.items]
                     S[0].get(new).items = items
@@ -2560,6 +2610,8 @@ def make_ext_modules(I):
             if isinstance(v, ObjDict):
                 # deepcopy(obj.__dict__): a plain dict holding deep copies of the instance attributes
                 return S[0].alloc(DictE({kk: dc(x) for kk, x in v.attrs(S[0]).items()}))
+            if isinstance(v, BoundMethod) and isinstance(v.self_val, Ref):
+                return BoundMethod(v.func, dc(v.self_val))  # types.MethodType: same function bound to the copy of its object
             return v
 
         r = dc(a[0])
@@ -2652,6 +2704,7 @@ def make_ext_modules(I):
 
     E["struct"] = bytesmodel.make_struct(I)
     E["io"] = {"DEFAULT_BUFFER_SIZE": 8192}
+    E["sys"] = {"maxsize": 2**63 - 1}  # 64-bit CPython (the native interpreter of this framework); nothing else of sys is modelled
     E["numpy"] = npmodel.make_module(I)
     E["numpy.linalg"] = npmodel.make_linalg(I)
     E["numpy.char"] = npmodel.make_char(I)
